@@ -27,3 +27,25 @@ unsigned vp_reserved() { return N().my_reserved; }
 unsigned vp_active() { return N().my_active; }
 unsigned long vp_nsucc() { return N().my_successors.my_successors.size(); }
 }
+
+extern "C" { void vp_emit(unsigned long v); unsigned vp_st_bag(); void vp_st_push(void*); void* vp_st_take(unsigned newest); void vp_st_reset(unsigned avail, unsigned accmask, unsigned flipmask); void vp_st_arena(unsigned); }
+static void st_run(unsigned newest) {
+  if (!vp_st_bag()) return;
+  d1::task* t = static_cast<d1::task*>(vp_st_take(newest));
+  void* b = vp_run_task(t, 0);
+  if (b) vp_st_push(b);
+}
+static void st_state() { vp_emit(vp_has_cached()); vp_emit(vp_reserved()); vp_emit(vp_active()); vp_emit(vp_graph_refs()); vp_emit(vp_nsucc()); vp_emit(vp_st_bag()); }
+extern "C" void vp_selftest() {
+  for (unsigned flip = 0; flip < 4; flip++) {
+    vp_st_reset(0, 0x12, flip); vp_init(2); vp_refv_init(0);
+    st_state(); vp_activate(); st_state();
+    for (int i = 0; i < 3; i++) { st_run(0); st_state(); }
+    int v = 0; vp_emit(vp_get(&v)); vp_emit(v); st_state(); st_run(0); st_state();
+    vp_emit(vp_reserve(&v)); vp_emit(v); st_state(); if (vp_reserved()) { vp_release(); st_state(); }
+    vp_add_succ(0); st_state(); st_run(1); st_state();
+    vp_emit(vp_reserve(&v)); if (vp_reserved()) { vp_consume(); st_state(); }
+    for (int i = 0; i < 6; i++) st_run(0);
+    st_state(); vp_emit(vp_get(&v)); vp_emit(v); for (int i = 0; i < 4; i++) st_run(0); st_state();
+  }
+}
